@@ -1,6 +1,7 @@
 #include "lra_theory.h"
 #include "lra_constraint.h"
 #include "lra_value_listener.h"
+#include "verif.h"
 #include <algorithm>
 #include <cassert>
 
@@ -56,6 +57,7 @@ namespace smt
             c_bounds[ub_index(slack)] = {ub(l), TRUE_lit}; // we set the upper bound at the upper bound of the given linear expression..
             vals[slack] = value(l);                        // we set the initial value of the new slack variable at the value of the given linear expression..
             new_row(slack, l);                             // we add a new row into the tableau..
+            VERIF_HOOK(lra_slack(slack, l));
             return slack;
         }
     }
@@ -99,6 +101,7 @@ namespace smt
             bind(ctr);
             s_asrts.emplace(s_assertion, ctr_lit);
             v_asrts.emplace(ctr, new assertion(*this, op::leq, ctr_lit, slack, c_right));
+            VERIF_HOOK(lra_assertion(ctr, 0, slack, c_right));
             return ctr_lit;
         }
     }
@@ -142,6 +145,7 @@ namespace smt
             bind(ctr);
             s_asrts.emplace(s_assertion, ctr_lit);
             v_asrts.emplace(ctr, new assertion(*this, op::leq, ctr_lit, slack, c_right));
+            VERIF_HOOK(lra_assertion(ctr, 0, slack, c_right));
             return ctr_lit;
         }
     }
@@ -185,6 +189,7 @@ namespace smt
             bind(ctr);
             s_asrts.emplace(s_assertion, ctr_lit);
             v_asrts.emplace(ctr, new assertion(*this, op::geq, ctr_lit, slack, c_right));
+            VERIF_HOOK(lra_assertion(ctr, 1, slack, c_right));
             return ctr_lit;
         }
     }
@@ -228,6 +233,7 @@ namespace smt
             bind(ctr);
             s_asrts.emplace(s_assertion, ctr_lit);
             v_asrts.emplace(ctr, new assertion(*this, op::geq, ctr_lit, slack, c_right));
+            VERIF_HOOK(lra_assertion(ctr, 1, slack, c_right));
             return ctr_lit;
         }
     }
@@ -461,6 +467,7 @@ namespace smt
 #ifdef PARALLELIZE
             sat->get_thread_pool().enqueue([this, x_j, expr, r]
                                            {
+                                               VERIF_HOOK(pivot_task(0));
                                                rational cc = r->l.vars[x_j];
                                                r->l.vars.erase(x_j);
                                                for (const auto &[v, c] : std::map<const var, rational>(expr.vars))
@@ -481,6 +488,7 @@ namespace smt
                                                            t_watches[v].erase(r);
                                                        }
                                                    }
+                                               VERIF_HOOK(pivot_task(1));
                                                r->l.known_term += expr.known_term * cc; });
         // we wait for all the rows to be updated..
         sat->get_thread_pool().join();
